@@ -10,7 +10,9 @@ import (
 	"os"
 	"strings"
 
+	"github.com/google/pprof/internal/driver"
 	"github.com/google/pprof/internal/measurement"
+	"github.com/google/pprof/internal/plugin"
 	"github.com/google/pprof/internal/report"
 	"github.com/google/pprof/profile"
 )
@@ -219,8 +221,8 @@ func runC15(c *Ctx) {
 			vs = append(vs, v)
 			names = append(names, fmt.Sprintf("f%d", len(vs)))
 		}
-		unit := PickS(c.R, []string{"bytes", "kb", "ns", "ms", "seconds", "count", "widgets", "gcu", "milligcu", "MB"})
-		out := PickS(c.R, []string{"auto", "minimum", "", "kb", "mb", "gb", "us", "s", "hrs", "widgets", "bytes", "kilogcu"})
+		unit := PickS(c.R, []string{"bytes", "kb", "ns", "ms", "seconds", "count", "widgets", "gcu", "milligcu", "MB", "M*GCU", "k*GCU", "GCU", "m*GCU", "Seconds", "KiB"})
+		out := PickS(c.R, []string{"auto", "minimum", "", "kb", "mb", "gb", "us", "s", "hrs", "widgets", "bytes", "kilogcu", "GCU", "k*GCU", "M*GCU"})
 		if k%4 == 0 { // a diff-like report: entries several units apart, the smallest one negative
 			vs = []int64{int64(1+c.R.Intn(20)) * 1000000000, int64(1+c.R.Intn(9)) * 1000000, -int64(1+c.R.Intn(9)) * int64(PickI(c.R, []int64{1, 1000, 1000000}))}
 			if c.R.Bool() {
@@ -240,6 +242,12 @@ func runC15(c *Ctx) {
 		duration := PickI(c.R, []int64{0, 0, 1000000000, 10000000000, 123456789, 1, 3600000000000})
 		c.Case("toptext", L(S("toptext"), L(in...), S(unit), S(out), Rat(ratio), Z(duration)), c15TopText(names, vs, unit, out, ratio, duration), true,
 			"op:toptext", fmt.Sprintf("ratio:%v", ratio))
+		// the same report through the real command line (flag parsing, fetch from a file, the driver's
+		// reportOptions): -top -unit=<out> -divide_by=<1/ratio>, nothing trimmed
+		if d, ok := map[float64]string{1: "1", 0.5: "2", 0.25: "4", 2: "0.5", 4: "0.25", 0.1: "10", 0.001: "1000"}[ratio]; ok && out != "" {
+			c.Case("toptext-cli", L(S("toptext"), L(in...), S(unit), S(out), Rat(ratio), Z(duration)), c15TopTextCLI(names, vs, unit, out, d, duration), true,
+				"op:toptext-cli", fmt.Sprintf("ratio:%v", ratio))
+		}
 	}
 	// CommonValueType over lists of (type, unit)
 	types := []string{"cpu", "cpus", "space", "alloc", "", "s"}
@@ -309,12 +317,7 @@ func runC15(c *Ctx) {
 
 // c15TopText renders the text report of a profile with one single-frame sample per name and
 // returns its rows: flat label, flat%, sum%, cum label, cum%, name.
-func c15TopText(names []string, vals []int64, unit, out string, ratio float64, duration int64) (res Term) {
-	defer func() {
-		if r := recover(); r != nil {
-			res = L(S("panic"), S(fmt.Sprint(r)))
-		}
-	}()
+func c15TopProfile(names []string, vals []int64, unit string, duration int64) *profile.Profile {
 	p := &profile.Profile{SampleType: []*profile.ValueType{{Type: "v", Unit: unit}}, DurationNanos: duration}
 	for i, n := range names {
 		f := &profile.Function{ID: uint64(i + 1), Name: n, SystemName: n}
@@ -323,16 +326,57 @@ func c15TopText(names []string, vals []int64, unit, out string, ratio float64, d
 		p.Location = append(p.Location, l)
 		p.Sample = append(p.Sample, &profile.Sample{Location: []*profile.Location{l}, Value: []int64{vals[i]}})
 	}
+	return p
+}
+
+// c15TopTextCLI prints the same report as c15TopText through driver.PProf with real flags.
+func c15TopTextCLI(names []string, vals []int64, unit, out, divideBy string, duration int64) (res Term) {
+	defer func() {
+		if r := recover(); r != nil {
+			res = L(S("panic"), S(fmt.Sprint(r)))
+		}
+	}()
+	p := c15TopProfile(names, vals, unit, duration)
+	var pb bytes.Buffer
+	if err := p.Write(&pb); err != nil {
+		return L(S("err"), S(err.Error()))
+	}
+	if err := os.WriteFile("c15in.prof", pb.Bytes(), 0o644); err != nil {
+		return L(S("harness-err"))
+	}
+	defer os.Remove("c15in.prof")
+	defer os.Remove("c15out.txt")
+	args := []string{"-symbolize=none", "-top", "-output=c15out.txt", "-nodecount=0", "-nodefraction=0", "-edgefraction=0",
+		"-unit=" + out, "-divide_by=" + divideBy, "c15in.prof"}
+	o := &plugin.Options{Flagset: newC09Flags(args), Sym: c09Sym{}, Obj: &c09Obj{}, UI: &c09UI{}}
+	if err := driver.PProf(o); err != nil {
+		return L(S("err"), S(err.Error()))
+	}
+	b, _ := os.ReadFile("c15out.txt")
+	return c15ParseTop(string(b))
+}
+
+func c15TopText(names []string, vals []int64, unit, out string, ratio float64, duration int64) (res Term) {
+	defer func() {
+		if r := recover(); r != nil {
+			res = L(S("panic"), S(fmt.Sprint(r)))
+		}
+	}()
+	p := c15TopProfile(names, vals, unit, duration)
 	opt := &report.Options{OutputFormat: report.Text, SampleValue: func(v []int64) int64 { return v[0] },
 		SampleUnit: unit, OutputUnit: out, Ratio: ratio}
 	var buf bytes.Buffer
 	if err := report.Generate(&buf, report.New(p, opt), nil); err != nil {
 		return L(S("err"), S(err.Error()))
 	}
+	return c15ParseTop(buf.String())
+}
+
+func c15ParseTop(text string) Term {
 	var rows []Term
 	started := false
 	legend := ""
-	for _, ln := range strings.Split(buf.String(), "\n") {
+	for _, ln := range strings.Split(text, "\n") {
 		f := strings.Fields(ln)
 		if !started {
 			if strings.HasPrefix(ln, "Duration: ") {
